@@ -8,6 +8,8 @@ import warnings
 warnings.filterwarnings("ignore")
 VERIF = os.path.dirname(os.path.dirname(os.path.abspath(__file__)))
 sys.path.insert(0, VERIF)
+# the real code every replay / bounded stand-in imports is the working tree the ASTs are read from
+sys.path.insert(0, os.environ.get("SIMFILE_REPO", "/repo"))
 
 
 def main():
